@@ -11,18 +11,18 @@ CHECKS = {
     "C02": ("exploration", "DESIGN.md section 3 (C02)",
             "Seeded simulation of generated programs under the real CallTracer (sys.setprofile): the scheduler decides every interleaving of calls and of "
             "start/next/send/throw/close/drop on live generator and coroutine frames, and injects logger faults; logged traces are compared with the ground truth the "
-            "program records about itself (exactly-once, completion order, attribution, entry-time argument types, return absent iff exception, yield cover, no residue). "
+            "program records about itself (exactly-once, completion order, attribution, entry-time argument types - also for containers the program mutates in place later and for one object passed to several calls -, return absent iff exception, yield cover, no residue). "
             "Sampling of a very large schedule space, not a proof.",
             "Trusts CPython's profile events, the self-recording of the generated bodies (C-level appends), and get_type() for container shapes (inference is C04/C05, not claimed)."),
     "C18": ("exploration", "DESIGN.md section 3 (C18)",
             "Same simulated world with sampling rates {None,1,2,3,10,100} and the sampling RNG behind a seam: scripted draw sequences (biased to 'skipped first, sampled on a later "
             "resumption') and seeded real-RNG runs; oracle: every logged trace is a faithful description of one completed call, all/none under all-zero/all-nonzero scripts, no residue, "
-            "binomial band on the traced fraction.",
+            "binomial band on the traced fraction, in one long session and over hundreds of short sessions (a new tracer each).",
             "Scripted mode assumes the tracer draws through monkeytype.tracing.random.randrange (falls back to seeded global RNG if the seam is never consulted)."),
     "C03": ("exploration", "DESIGN.md section 3 (C03)",
             "The same generated workload is executed untraced and traced with fresh tripwire objects (attribute hooks, descriptors, container-protocol overrides, journaling "
-            "__hash__/__eq__/__bool__/__repr__, metaclass hooks) under every single and sampled double fault in logger.log / logger.flush / type inspection, with and without a "
-            "pre-installed profiler, for normal and exceptional exits of the traced block.",
+            "__hash__/__eq__/__bool__/__repr__, metaclass hooks, standard-library containers wrapping user mappings, tripwires bound to module globals) under every single and sampled double fault in logger.log / logger.flush / type inspection, with and without a "
+            "pre-installed profiler, for normal and exceptional exits of the traced block; a worker thread started inside the block and released (baton passing) after its exit must not be traced any more.",
             "Hook journals compare only objects created by the workload; BaseExceptions that are not Exceptions are not injected."),
     "C09": ("fault_enumeration", "DESIGN.md section 3 (C09)",
             "Real SQLiteStore on a real file driven by forked actor processes parked inside SQLite's progress handler: the scheduler decides which actor runs at every VM-step park "
@@ -34,12 +34,12 @@ CHECKS = {
             "CLI `stub`; every annotation in the emitted stub text is evaluated with the names the stub provides and every committed observed value must conform to it.",
             "Conformance oracle is an independent implementation of 'value belongs to annotation'; values whose trace was not acknowledged as committed are not judged."),
     "C06": ("exploration", "DESIGN.md section 3 (C06)",
-            "Dict-heavy end-to-end histories with k in {0,1,2,3,10} (also changed between trace and stub time): TypedDict nodes are scanned at three observation points of the running "
+            "Dict-heavy end-to-end histories with k in {0,1,2,3,10} (also changed between trace and stub time, visible only inside Config.cli_context(), or different in an enclosing tracing block): TypedDict nodes are scanned at three observation points of the running "
             "system - traces handed to the logger, committed rows, rendered stub classes.",
             "Rides on the C01 world; key-type/emptiness provenance is checked against the journaled value at that position."),
     "C10": ("exploration", "DESIGN.md section 3 (C10)",
             "Histories of trace -> code churn -> trace -> stub/apply: a churn injector rewrites the fixture package on disk between phases (modules, functions, classes removed or "
-            "rebound to non-functions / non-types, parameters renamed); the real CLI is compared differentially with a twin database holding only the rows an independent "
+            "rebound to non-functions / non-types, parameters renamed, a module that still exists importing a removed sibling); the real CLI (SQLite store or a minimal custom store) is compared differentially with a twin database holding only the rows an independent "
             "decodability model says are decodable (output equality, skipped-count on stderr, exit status, 'no traces' message).",
             "Decodability model derived from the churn ops, not from MonkeyType; --limit kept above the row count."),
     "C14": ("exploration", "DESIGN.md section 3 (C14)",
@@ -47,7 +47,7 @@ CHECKS = {
             "with pinned PYTHONHASHSEED, ASLR off and a layout salt; all stubs must have the same normal form (unions as sets).",
             "setarch -R availability for the layout dimension (dropped and reported if refused)."),
     "C17": ("exploration", "DESIGN.md section 3 (C17)",
-            "Simulated `monkeytype run` of generated scripts (own __main__ functions, fixture, stdlib and site-packages calls) with default and custom filters, plus the default filter "
+            "Simulated `monkeytype run` of generated scripts (own __main__ functions, fixture, stdlib and site-packages calls) with default and custom filters, project modules whose names are contained in '__main__', and code objects compiled, freed and re-created at run time, plus the default filter "
             "under simulated deployment layouts (lib roots, symlinks, synthetic file names, allow-list env var, lru_cache histories) against an independent realpath oracle.",
             "Does not enumerate every installed code object (input enumeration, not simulation)."),
 }
